@@ -238,6 +238,23 @@ SPECIALS = [
     ("digits-literal", "a APPEND x {" + "1" * 4400 + "}\r\n"),
     ("digits-partial", "a FETCH 1 BODY[]<" + "1" * 4500 + ".5>"),
     ("digits-status", "a SEARCH UID " + "3" * 4301 + ":*"),
+    # just outside the grammar: none of these is a sentence (each was accepted by the parser at some point)
+    ("fetch-empty-list", "a FETCH 1 ()"),
+    ("fetch-empty-list-uid", "a UID FETCH 1:* ()"),
+    ("section-no-dot", "a FETCH 1 BODY[3TEXT]"),
+    ("section-no-dot-peek", "a FETCH 1 (BODY.PEEK[1HEADER])"),
+    ("section-part-zero", "a FETCH 1 BODY[0]"),
+    ("section-part-zero-inner", "a FETCH 1 BODY[1.0.TEXT]"),
+    ("section-trailing-dot", "a FETCH 1 BODY[1.]"),
+    ("section-trailing-dot-partial", "a FETCH 1 BODY[2.1.]<0.10>"),
+    ("search-empty-list", "a SEARCH ()"),
+    ("search-empty-inner-list", "a SEARCH SEEN () FLAGGED"),
+    ("status-empty-list", "a STATUS inbox ()"),
+    ("store-unparenthesised-two-flags-then-paren", "a STORE 1 +FLAGS \\Seen ("),
+    ("set-zero", "a FETCH 0 FLAGS"),
+    ("set-trailing-comma", "a FETCH 1, FLAGS"),
+    ("set-double-colon", "a FETCH 1::3 FLAGS"),
+    ("partial-no-count", "a FETCH 1 BODY[]<5>x"),
     ("empty", ""),
     ("only-tag", "a"),
     ("only-tag-sp", "a "),
